@@ -100,6 +100,9 @@ fn run(cmd: &str, args: &[String], seed: u64, cases: u64, st: &mut Stats) {
             if all || which == "manifest" {
                 ia3::manifest(seed, cases, &mut st, &mut drv);
             }
+            if which == "bigblob" {
+                ia4::bigblob(seed, cases, st);
+            }
             if all || which == "hwm" {
                 ia4::hwm(seed, cases, &mut st, &mut drv);
             }
